@@ -103,7 +103,7 @@ def rule_nsig(prog: Program, col: Collector) -> None:
                 ipos = [x.arg for x in ia.posonlyargs + ia.args] + [x.arg for x in ia.kwonlyargs]
                 badk = [kk for kk in ikw if kk not in ipos and ia.kwarg is None]
                 col.check(not badk, where, iref.short, f"nested callable {k}={iref.short} accepts its bound keywords {sorted(ikw)}",
-                          construct=f"nested-sig:{key}:{k}", necessity="")
+                          construct=f"nested-sig:{key}:{k}", necessity="a keyword bound in the registry that the nested callable does not accept raises TypeError on every call of that entry")
 
 
 # --------------------------------------------------------------------------------------
@@ -570,3 +570,94 @@ def rule_next_nfac(prog: Program, col: Collector) -> None:
                   "coalitions without the owner get the literal value 0" + (f" ({bad[1]})" if bad else ""), construct="factory-non-owner-zero",
                   necessity="value_fn(0) is not 0 for the registered exp / constant-1 value functions: the empty coalition would get a non-zero value and "
                             "the game would not be superadditive (the in-code assertion then fails for every call of that CLI choice)", rule="N-fac")
+
+
+# --------------------------------------------------------------------------------------
+# N-idx: a randomly drawn index stays inside the sequence it indexes
+# --------------------------------------------------------------------------------------
+
+def _strip_int(t):
+    while isinstance(t, tuple) and t[0] == "call" and t[1] in (("global", "int"), ("global", "numpy.int64"), ("global", "operator.index")) and len(t[2]) == 1:
+        t = t[2][0]
+    return t
+
+
+def _drawn_bound(t):
+    """hi of ``rng.integers(hi)`` / ``rng.integers(lo, hi)`` / ``randrange(hi)`` if ``t`` is such a draw (int()-wrapping stripped), else None."""
+    t = _strip_int(t)
+    if isinstance(t, tuple) and t[0] == "call" and t[1][0] == "attr" and t[1][2] in ("integers", "randint", "randrange"):
+        kw = dict(t[3])
+        if "endpoint" in kw or t[1][2] == "randint" and t[1][1][0] != "global":
+            return ("unknown", "inclusive upper end")
+        if "high" in kw:
+            return kw["high"]
+        if len(t[2]) == 1:
+            return t[2][0]
+        if len(t[2]) >= 2:
+            return t[2][1]
+    return None
+
+
+def _length_relation(seq, hi) -> str:
+    """'equal' / 'shorter' / 'unknown': how len(seq) relates to the exclusive bound hi."""
+    if hi == ("call", ("global", "len"), (seq,), ()):
+        return "equal"
+    inner = seq
+    while isinstance(inner, tuple) and inner[0] == "call" and inner[1] in (("global", "list"), ("global", "tuple"), ("global", "sorted")) and len(inner[2]) == 1:
+        inner = inner[2][0]
+    if is_call_to(inner, "range") and inner[2] in ((hi,), (("const", 0), hi)):
+        return "equal"
+    if is_call_to(inner, "numpy.arange") and inner[2][:1] == (hi,) and len(inner[2]) == 1:
+        return "equal"
+    if is_call_to(inner, "numpy.zeros", "numpy.ones", "numpy.empty", "numpy.full") and inner[2][:1] == (hi,):
+        return "equal"
+    if isinstance(inner, tuple) and inner[0] == "comp" and len(inner[3]) == 1:
+        _el, it, conds = inner[3][0]
+        rel = _length_relation(it, hi)
+        if rel == "equal":
+            return "shorter" if conds else "equal"
+        return rel
+    if isinstance(inner, tuple) and inner[0] == "index" and inner[2][0] == "slice":
+        return "unknown"
+    return "unknown"
+
+
+def rule_nidx(prog: Program, col: Collector) -> None:
+    col.rule("N-idx", "an index drawn with rng.integers(hi) only subscripts a sequence of exactly hi elements (or len(seq) is the bound)", 1)
+    # positive control: the shape the rule exists for
+    n = ("param", "n")
+    seq = ("comp", "list", ("elem", "x"), ((("elem", "x"), ("call", ("global", "range"), (n,), ()), (("cmp", "!=", ("elem", "x"), ("param", "o")),)),))
+    if _length_relation(seq, n) != "shorter" or _drawn_bound(("call", ("global", "int"), (("call", ("attr", ("param", "g"), "integers"), (n,), ()),), ())) != n:
+        raise AnalysisError("N-idx positive control failed")
+    nfun = nsite = 0
+    for ref in prog.all_functions():
+        if not ref.module.name.endswith(".generators"):
+            continue
+        nfun += 1
+        ft = fterms(prog, ref)
+        seen = set()
+        for ev in ft.events:
+            for v in ev.data.values():
+                if not isinstance(v, tuple):
+                    continue
+                for t in subterms(v):
+                    if t[0] != "index" or t in seen:
+                        continue
+                    hi = _drawn_bound(t[2])
+                    if hi is None:
+                        continue
+                    seen.add(t)
+                    nsite += 1
+                    rel = _length_relation(t[1], hi)
+                    what = f"{short(t[1], 60)}[<drawn below {short(hi, 30)}>]"
+                    if rel == "equal":
+                        col.ok(ref.where(ev.node), ref.short, f"{what}: the sequence has exactly that many elements")
+                    elif rel == "shorter":
+                        col.violation(ref.where(ev.node), ref.short, "random-index-out-of-range", f"{what}: the sequence is a filtered selection and has fewer elements than the bound of the draw",
+                                      "for the seeds whose draw lands past the end the generator raises IndexError: the registry key cannot be invoked for every seed")
+                    else:
+                        col.undecidable(ref.where(ev.node), ref.short, f"{what}: cannot relate the length of the sequence to the bound of the draw")
+    if nfun == 0:
+        raise AnalysisError("N-idx: generators module not found")
+    if nsite == 0:
+        col.ok("-", "generators", f"no randomly drawn subscript in {nfun} generator functions (positive control matched)")
